@@ -122,6 +122,10 @@ func (tr *tokenReader) Next() bool {
 		}
 		// other errors should have been corrected
 	}
+	if !ok && len(tr.errs) != 0 {
+		// the byte reader failed; there is nothing to unread
+		return false
+	}
 	if ok {
 		if tk.kind == tokenKindNewline {
 			tr.loc.incLine()
